@@ -215,6 +215,17 @@ class ServerWorld(c19.World):
                 self.stopped = False
                 self.sit["C16.served_again"] += 1
             await self._period(period)
+            if any(getattr(cl, "parked", False) for cl in self.clients.values()):
+                # release whoever waits for the close, while it is still connected
+                self.pool.lock()
+                await self.pool.gather_and_close()
+                await self.settle()
+                for cl in self.clients.values():
+                    if getattr(cl, "parked", False):
+                        got = cl.take()
+                        if got != b"True\n":
+                            self.violate("C16.member_runs", f"until-closed answered {got!r} once the pool was closed, expected b'True\\n'")
+                        cl.parked = False
             for cl in self.clients.values():
                 if cl.writer is not None and not cl.writer.is_closing():
                     await self.disconnect(cl, "close")
@@ -241,9 +252,27 @@ class ServerWorld(c19.World):
         import random as _r
 
         rng = _r.Random(sc["seed"] + period)
+        mine = [cl for c, cl in sorted(self.clients.items()) if cl.open and c >= base]
+        parked = None
+        if sc.get("park") and period == sc.get("periods", 1) - 1 and len(mine) >= 2:
+            # one client sits in a command that waits (until the pool is closed); the others must not notice
+            parked = mine[0]
+            got = await self.command(parked, "until-closed")
+            if got:
+                self.violate("C16.member_runs", f"until-closed answered {got!r} although the pool is open")
+            parked.parked = True
+            self.sit["C16.client_parked_meanwhile"] += 1
         for c, cl in sorted(self.clients.items()):
-            if not cl.open or c < base:
+            if not cl.open or c < base or cl is parked:
                 continue
+            for probe, attr in (("num-running", "num_running"), ("is-locked", "is_locked")):
+                got = await self.command(cl, probe)
+                want = (str(getattr(self.pool, attr)) + "\n").encode()
+                if got != want:
+                    self.violate("C16.member_runs", f"client {c}: {probe!r} answered {got!r}, the pool says {want!r}" + (" (another client is parked in until-closed)" if parked else ""))
+                    break
+            else:
+                self.sit["C16.socket_probe_ok"] += 1
             for n, member in rng.sample(members, min(4, len(members))):
                 cmd = n.replace("_", "-")
                 got = await self.command(cl, f"{cmd} -h")
@@ -271,4 +300,4 @@ def gen_server_case(rng):
     while pending:
         order.append(["hello", pending.pop(rng.randrange(len(pending)))])
     return {"server": True, "transport": rng.choice(["tcp", "unix"]), "cls": rng.choice(["T", "S"]), "order": order, "nclients": n, "seed": rng.getrandbits(32),
-            "periods": rng.choice([1, 1, 2, 3])}
+            "periods": rng.choice([1, 1, 2, 3]), "park": rng.random() < 0.5}
